@@ -237,6 +237,18 @@ CLAIMED["C15"] = {
     "design_ref": "DESIGN.md §5 C15, §9.1",
 }
 
+CLAIMED["C12"] = {
+    "text": "Decides structural clauses only (which branch a program takes is a run-time fact and is not decided): get -- the parser builds "
+            "'{file}:{line}:{col}' of the `get` token in that order and stores it as Expr::UnaryUnwrap.span, the generator emits `<x> unwrap <position>` "
+            "(one argument), and the unwrap handler, read as a table by abstract interpretation over {nil, present value of 7 kinds}, returns Err on nil "
+            "with a message formatting args[0] and Ok on every present kind; or -- the generator emits `<x> jmp_not_nil <n> <y>` with n = len(code(y)) + 1, "
+            "and the jmp_not_nil handler pops without jumping on nil and jumps without popping on a present value; ?= -- the generator emits `<e> "
+            "unwrap_into <name>`, and the unwrap_into handler stores exactly once and pushes false on nil, true on a present value; == nil -- "
+            "Primitive::equals never fails with a nil operand. That a present optional is the plain value at run time is C02.optional-rep.",
+    "technique": "static analysis: decision tables of the instruction handlers by abstract interpretation of rustc MIR; symbolic instruction sequences of the generators; origin slicing of the position string",
+    "design_ref": "DESIGN.md §5 C12, §9.1",
+}
+
 NOT_APPLICABLE = {
     "C01": "observable is program output; mechanism is relative jump offsets computed from Vec::len() arithmetic of recursively compiled blocks - deciding it needs symbolic execution of the generators (a different family); see DESIGN.md §5 C01",
     "C09": "a property of the compiler's *output* for all programs (jump targets, frame balance, operand-stack shape): needs symbolic block lengths or a verifier over emitted bytecode (translation validation), not an analysis of /repo's source; DESIGN.md §5 C09",
